@@ -712,6 +712,12 @@ func ruleHistoricReaderMode(c *Ctx) {
 					verdict, why = "ok", "constant mode without ModeGCFlag"
 				}
 			}
+			// the state-root module's own readers open the very store the module writes: the mode has to be the
+			// module's mode (record layout: reference-count suffix or not) with nothing but the GC flag cleared
+			if verdict == "ok" && fn[0] == "pkg/core/stateroot" && !f.Mentions(arg, s.blk)["pkg/core/stateroot#mode"] {
+				c.Fail(key+".layout", c.P.Pos(s.call.Pos()), fmt.Sprintf("%s.%s opens a read-only trie over the module's store with a mode that does not derive from the module's own (%s): with KeepOnlyLatestState or RemoveUntraceableBlocks the records carry a reference-count suffix this trie does not cut off, and every proof item it emits has five extra bytes that VerifyProof rejects", fn[1], fn[2], types.ExprString(arg)))
+				continue
+			}
 			switch verdict {
 			case "ok":
 				c.OK(key, c.P.Pos(s.call.Pos()), why)
